@@ -62,6 +62,7 @@ type Term struct {
 	hi    uint64
 	exact bool // integer value of the linear form == bit-vector value
 	ik    int64 // OSum: the constant as an integer when exact
+	sh    uint64 // structural hash (independent of term ids), 0 = not yet computed
 }
 
 func mask(w uint8) uint64 {
@@ -1115,4 +1116,44 @@ func (t *Term) Vars(seen map[*Term]bool, out map[string]*Term) {
 	for _, c := range t.children() {
 		c.Vars(seen, out)
 	}
+}
+
+// SHash is a structural hash of the term that does not depend on creation
+// order; used to check that a replayed decision prefix meets the same
+// conditions it was recorded for.
+func (t *Term) SHash() uint64 {
+	if t.sh != 0 {
+		return t.sh
+	}
+	h := uint64(1469598103934665603)
+	mix := func(x uint64) {
+		h ^= x
+		h *= 1099511628211
+	}
+	mix(uint64(t.Op))
+	mix(uint64(t.W))
+	mix(t.K)
+	for i := 0; i < len(t.Name); i++ {
+		mix(uint64(t.Name[i]))
+	}
+	if t.Op == OSum {
+		// order-independent combination of the summands
+		var acc uint64
+		for i, a := range t.Args {
+			acc += a.SHash() * (t.Coefs[i]*2 + 1)
+		}
+		mix(acc)
+	} else if t.Op == OAnd || t.Op == OOr || t.Op == OXor || t.Op == OMul || t.Op == OEq || t.Op == OBAnd || t.Op == OBOr {
+		mix(t.A.SHash() + t.B.SHash())
+		mix(t.A.SHash() ^ t.B.SHash())
+	} else {
+		for _, c := range t.children() {
+			mix(c.SHash())
+		}
+	}
+	if h == 0 {
+		h = 1
+	}
+	t.sh = h
+	return h
 }
